@@ -17,6 +17,9 @@ META = {
     "assumptions": ["transient states inside an operation are never inspected (only after the top-level call returns)",
                     "entry-wise set updates run on scratch copies and are not validated (they are not dense operations)"],
 }
+META["rule"] += "; round 7: 'medium' histories as in C06; after every entry-wise set update each entry must be a non-empty strictly increasing uint32 list"
+for _t in META["require"]:
+    META["require"][_t] = list(META["require"][_t]) + ['class:entries_of_more_than_1000_row_ids', 'set_update:entries_checked_for_form']
 ASPECT = "C07"
 
 
